@@ -38,7 +38,7 @@ def col_of(name):
         return None
 
 
-def explore(k, c, shape, ratio=2.0, step=2, order=2, num_terms=2, max_paths=3000, timeout_ms=20000, nan_cols=()):
+def explore(k, c, shape, ratio=2.0, step=2, order=2, num_terms=2, max_paths=3000, timeout_ms=20000, nan_cols=(), nan_cells=()):
     """all feasible paths of the real pipeline; each path result is a dict.
     nan_cols: columns whose estimates are all NaN (a point where the function is undefined at every step)"""
     mods = cm.nd_mods()
@@ -47,6 +47,8 @@ def explore(k, c, shape, ratio=2.0, step=2, order=2, num_terms=2, max_paths=3000
     for j in nan_cols:
         for i in range(k):
             np.asarray(der)[i, j] = float('nan')
+    for (i, j) in nan_cells:             # estimates that are NaN for some steps only (e.g. sqrt near 0 with the large steps)
+        np.asarray(der)[i, j] = float('nan')
     pos = [sn.lift(v) > 0 for v in cm.flat_list(steps)]
 
     def harness():
